@@ -26,6 +26,8 @@ type C16Case struct {
 	// the system's directory for temporary files ($TMPDIR) is on another file system than the package directory
 	// (a rename from there fails with EXDEV), if the machine has one the harness can write to
 	TmpOther bool `json:"tmpother,omitempty"`
+	// after every crash point a second, complete save of a shorter test case of the same test goes into the same directory
+	Again bool `json:"again,omitempty"`
 }
 
 // otherFSDir creates a directory on a file system other than the one of the working directory, or returns "".
@@ -84,6 +86,7 @@ func (c16) Gen(dt *drv.T, c *Ctx) any {
 	}
 	cs.PreDir = drv.Bool().Draw(dt, "predir")
 	cs.TmpOther = drv.Bool().Draw(dt, "tmpother")
+	cs.Again = chance(dt, "again", 25)
 	return cs
 }
 
@@ -153,6 +156,25 @@ func (c16) Run(c *Ctx, csAny any) Outcome {
 	}
 	refInv := xr.Log[0]
 
+	// a later, uninterrupted and shorter save of the same test into the directory a killed save left behind: whatever
+	// the killed one left under temporary names must not end up inside a file that is picked up
+	short := *cs
+	short.Lines, short.Words, short.OnlyK = nil, 1, 0
+	envShort := childEnv(&short)
+	if tmpOther != "" {
+		envShort = append(envShort, "TMPDIR="+tmpOther)
+	}
+	refShort := ""
+	if cs.Again {
+		ds := EnterCaseDir()
+		rs := traceChild(0, argv, envShort, ds)
+		if fs := FailFiles(); rs.Err == nil && len(fs) == 1 {
+			b, _ := os.ReadFile(fs[0])
+			refShort = normalizeFailFile(b)
+		}
+		LeaveCaseDir(ds)
+	}
+
 	K := r0.Count
 	c.Stats.Extra["crash_points"] = asInt(c.Stats.Extra["crash_points"]) + K
 	between := 0
@@ -206,6 +228,17 @@ func (c16) Run(c *Ctx, csAny any) Outcome {
 				viol = violf("C16:next-run-panics", "killed before fs call %d/%d: the next run panicked: %v", k, K, r2.Obs.Escaped)
 			}
 		}
+		if viol == nil && refShort != "" {
+			// (the later save gets a file name of its own: names carry the process id)
+			if ra := traceChild(0, argv, envShort, dk); ra.Err == nil {
+				for _, f := range FailFiles() {
+					b, _ := os.ReadFile(f)
+					if n := normalizeFailFile(b); n != ref && n != refShort {
+						viol = violf("C16:partial-data-in-later-fail-file", "name %q: a save was killed before fs call %d/%d (%s); after a later, complete save of a shorter test case into the same directory, %s (%d bytes) is neither of the two complete files", name, k, K, rk.Name, filepath.Base(f), len(b))
+					}
+				}
+			}
+		}
 		LeaveCaseDir(dk)
 		if viol != nil {
 			one := *cs
@@ -222,6 +255,9 @@ func (c16) Run(c *Ctx, csAny any) Outcome {
 	}
 	if tmpOther != "" {
 		out.Classes = append(out.Classes, "TMPDIR-on-another-file-system")
+	}
+	if refShort != "" {
+		out.Classes = append(out.Classes, "later-save-into-the-same-directory")
 	}
 	return out
 }
